@@ -1478,7 +1478,7 @@ OP_WEIGHTS = [
     ('apps_blacklist', 2), ('blackout_server', 1), ('running', 4),
     ('advance', 8), ('snap', 10), ('process', 14), ('drain', 10),
     ('master_cycle', 22), ('integrity', 3), ('tick', 1), ('restart', 3),
-    ('failover_after_down', 3), ('identity_churn', 3), ('cell_bucket', 2),
+    ('failover_after_down', 3), ('identity_churn', 6), ('cell_bucket', 2),
     ('flap_with_reload', 2),
 ]
 
@@ -1649,7 +1649,7 @@ class MasterSim(enginemod.Engine):
                 'the harness, not executed']
 
     def quick_runs(self, prop):
-        return {'C09': 1600, 'C10': 160, 'C11': 1200}.get(prop, 1600)
+        return {'C09': 3200, 'C10': 160, 'C11': 1600}.get(prop, 1600)
 
     def make_config(self, prop, tier, rng):
         return make_config(prop, tier, rng)
